@@ -126,22 +126,183 @@ theorem withheld_until_both (r1 : InRec) (rs : List InRec)
   have := key rs (create r1) False hall (by simp [(withheld_at_first r1 h1).1]) (fun _ => (withheld_at_first r1 h1).2.2)
   simpa using this
 
-/-- C07: the merged record carries every correlate field that is non-empty on either side, taken
-    from one of the two sides, and is marked filled -/
+/-! ### Records that lack a correlate field (`CorrV.absent`: the two nodes of a flow may export with
+    different templates) -/
+
+/-- the merge of one field, case by case: a field the incoming record lacks is skipped (the stored
+    record keeps what it has - or keeps lacking it); a field the stored record lacks is taken over
+    from the incoming record whatever its value; when both carry it a non-empty incoming value
+    overwrites the stored one -/
+theorem mergeV_cases (i e : CorrV) :
+    (i = .absent → mergeV i e = e) ∧
+    (i ≠ .absent → e = .absent → mergeV i e = i) ∧
+    (i ≠ .absent → e ≠ .absent → mergeV i e = if i.isEmpty then e else i) := by
+  unfold mergeV
+  refine ⟨fun h => by simp [h], fun h1 h2 => by simp [h1, h2], fun h1 h2 => by simp [h1, h2]⟩
+
+/-- the merged value is always that of one of the two records, and the merged record lacks the field
+    exactly when both records lack it -/
+theorem mergeV_from_either (i e : CorrV) :
+    (mergeV i e = i ∨ mergeV i e = e) ∧ (mergeV i e = .absent ↔ i = .absent ∧ e = .absent) := by
+  unfold mergeV
+  by_cases hi : i = .absent
+  · simp [hi]
+  · by_cases he : e = .absent
+    · simp [hi, he]
+    · by_cases hem : i.isEmpty = true <;> simp [hi, he, hem]
+
+/-- a field that is non-empty on either side is non-empty in the merge -/
+theorem mergeV_nonempty (i e : CorrV) (h : (!i.isEmpty || !e.isEmpty) = true) : (mergeV i e).isEmpty = false := by
+  unfold mergeV
+  by_cases hi : i = .absent
+  · subst hi
+    simpa [CorrV.isEmpty] using h
+  · by_cases he : e = .absent
+    · subst he
+      simpa [hi, CorrV.isEmpty] using h
+    · by_cases hem : i.isEmpty = true
+      · simp [hi, he, hem] at h ⊢; exact h
+      · simp [hi, he, hem]
+
+/-- C07: the merged record, position by position, at full strength: position `i` of the merge is
+    `mergeV` of the two records' values, i.e.
+      - the incoming record lacks the field: the stored record's value (or absence) is kept,
+      - the stored record lacks the field, the incoming one carries it: the incoming value, EMPTY OR
+        NOT, is taken over (the code appends the incoming element to the stored record),
+      - both carry it: a non-empty incoming value overwrites the stored one, an empty one does not;
+    hence the merge carries a field exactly when one of the two records carries it, its value is
+    that of one of the two, and every correlate field that is non-empty on either side is non-empty
+    in the merge, taken from one of the two sides -/
 theorem merged_complete (inc ex : List CorrV) (hlen : inc.length = ex.length) (i : Nat) (hi : i < inc.length) :
-    (correlate inc ex)[i]? = some (if (inc[i]'hi).isEmpty then ex[i]'(hlen ▸ hi) else inc[i]'hi) ∧
+    (correlate inc ex)[i]? = some (mergeV (inc[i]'hi) (ex[i]'(hlen ▸ hi))) ∧
+    (inc[i]'hi = .absent → (correlate inc ex)[i]? = some (ex[i]'(hlen ▸ hi))) ∧
+    (inc[i]'hi ≠ .absent → ex[i]'(hlen ▸ hi) = .absent → (correlate inc ex)[i]? = some (inc[i]'hi)) ∧
+    (inc[i]'hi ≠ .absent → ex[i]'(hlen ▸ hi) ≠ .absent →
+      (correlate inc ex)[i]? = some (if (inc[i]'hi).isEmpty then ex[i]'(hlen ▸ hi) else inc[i]'hi)) ∧
+    ((correlate inc ex)[i]? = some .absent ↔ inc[i]'hi = .absent ∧ ex[i]'(hlen ▸ hi) = .absent) ∧
     ((!(inc[i]'hi).isEmpty || !(ex[i]'(hlen ▸ hi)).isEmpty) →
       ∃ v, (correlate inc ex)[i]? = some v ∧ !v.isEmpty ∧ (v = inc[i]'hi ∨ v = ex[i]'(hlen ▸ hi))) := by
-  have h1 : (correlate inc ex)[i]? = some (if (inc[i]'hi).isEmpty then ex[i]'(hlen ▸ hi) else inc[i]'hi) := by
+  have h1 : (correlate inc ex)[i]? = some (mergeV (inc[i]'hi) (ex[i]'(hlen ▸ hi))) := by
     unfold correlate
     rw [List.getElem?_zipWith]
     simp [List.getElem?_eq_getElem hi, List.getElem?_eq_getElem (hlen ▸ hi : i < ex.length)]
-  refine ⟨h1, ?_⟩
-  intro hne
-  refine ⟨_, h1, ?_⟩
-  by_cases he : (inc[i]'hi).isEmpty = true
-  · simp [he] at hne ⊢; exact hne
-  · simp [he]
+  obtain ⟨c1, c2, c3⟩ := mergeV_cases (inc[i]'hi) (ex[i]'(hlen ▸ hi))
+  obtain ⟨f1, f2⟩ := mergeV_from_either (inc[i]'hi) (ex[i]'(hlen ▸ hi))
+  refine ⟨h1, fun h => by rw [h1, c1 h], fun h h' => by rw [h1, c2 h h'], fun h h' => by rw [h1, c3 h h'], ?_, ?_⟩
+  · rw [h1]
+    constructor
+    · intro h; exact f2.mp (Option.some.inj h)
+    · intro h; rw [f2.mpr h]
+  · intro hne
+    refine ⟨_, h1, ?_, f1⟩
+    simp [mergeV_nonempty _ _ hne]
+
+/-- the merge has the length of the two records -/
+theorem merged_length (inc ex : List CorrV) (hlen : inc.length = ex.length) : (correlate inc ex).length = inc.length := by
+  unfold correlate
+  simp [List.length_zipWith, hlen]
+
+/-- a record without absent fields merges as before: every non-empty incoming field overwrites -/
+theorem merged_all_present (inc ex : List CorrV) (hi : ∀ v ∈ inc, v ≠ .absent) (he : ∀ v ∈ ex, v ≠ .absent) :
+    correlate inc ex = List.zipWith (fun i e => if i.isEmpty then e else i) inc ex := by
+  unfold correlate
+  induction inc generalizing ex with
+  | nil => simp
+  | cons a t ih =>
+    cases ex with
+    | nil => simp
+    | cons b u =>
+      simp only [List.zipWith_cons_cons]
+      rw [ih u (fun v hv => hi v (List.mem_cons_of_mem _ hv)) (fun v hv => he v (List.mem_cons_of_mem _ hv))]
+      rw [(mergeV_cases a b).2.2 (hi a List.mem_cons_self) (he b List.mem_cons_self)]
+
+/-- isCorrelationRequired does not consult a rule action the record lacks: the decision is the one for
+    the record with that action = 0 (no NetworkPolicy decision) -/
+theorem absent_action_not_consulted (ft : Nat) (c : List CorrV) :
+    (c[iEgress]? = some .absent → corrRequired ft c = corrRequired ft (c.set iEgress (.num 0))) ∧
+    (c[iIngress]? = some .absent → corrRequired ft c = corrRequired ft (c.set iIngress (.num 0))) := by
+  have hne : iIngress ≠ iEgress := by decide
+  constructor
+  · intro h
+    have hlt : iEgress < c.length := by
+      apply Classical.byContradiction; intro hn
+      rw [List.getElem?_eq_none (by omega)] at h; cases h
+    have e1 : corrNum c iEgress = 0 := by simp [corrNum, h]
+    have e2 : corrNum (c.set iEgress (.num 0)) iEgress = 0 := by simp [corrNum, List.getElem?_set_self hlt]
+    have e3 : corrNum (c.set iEgress (.num 0)) iIngress = corrNum c iIngress := by
+      simp [corrNum, List.getElem?_set_ne (Ne.symm hne)]
+    simp [corrRequired, e1, e2, e3]
+  · intro h
+    have hlt : iIngress < c.length := by
+      apply Classical.byContradiction; intro hn
+      rw [List.getElem?_eq_none (by omega)] at h; cases h
+    have e1 : corrNum c iIngress = 0 := by simp [corrNum, h]
+    have e2 : corrNum (c.set iIngress (.num 0)) iIngress = 0 := by simp [corrNum, List.getElem?_set_self hlt]
+    have e3 : corrNum (c.set iIngress (.num 0)) iEgress = corrNum c iEgress := by
+      simp [corrNum, List.getElem?_set_ne hne]
+    simp [corrRequired, e1, e2, e3]
+
+/-- in particular with the decision logic spelled out: an inter-node record WITHOUT the egress action
+    needs correlation exactly when its ingress action is not Reject; one WITHOUT the ingress action
+    exactly when its egress action is neither Drop nor Reject; one without both always -/
+theorem needs_correlation_absent_action (c : List CorrV) :
+    (c[iEgress]? = some .absent → (corrRequired 2 c = true ↔ corrNum c iIngress ≠ 3)) ∧
+    (c[iIngress]? = some .absent → (corrRequired 2 c = true ↔ corrNum c iEgress ≠ 2 ∧ corrNum c iEgress ≠ 3)) ∧
+    (c[iEgress]? = some .absent → c[iIngress]? = some .absent → corrRequired 2 c = true) := by
+  refine ⟨fun h => ?_, fun h => ?_, fun h h' => ?_⟩
+  · have e1 : corrNum c iEgress = 0 := by simp [corrNum, h]
+    rw [needs_correlation_iff]; simp [e1]
+  · have e1 : corrNum c iIngress = 0 := by simp [corrNum, h]
+    rw [needs_correlation_iff]; simp [e1]
+  · have e1 : corrNum c iEgress = 0 := by simp [corrNum, h]
+    have e2 : corrNum c iIngress = 0 := by simp [corrNum, h']
+    rw [needs_correlation_iff]; simp [e1, e2]
+
+/-- C07 for such a record: an inter-node record that lacks the egress action and was rejected at
+    ingress needs no correlation and is ready at once (`ready_at_once` applies); so is one that lacks
+    the ingress action and was dropped / rejected at egress -/
+theorem absent_action_ready_at_once (r : InRec) (hft : r.flowType = 2) :
+    (r.corr[iEgress]? = some .absent → corrNum r.corr iIngress = 3 → (create r).ready = true) ∧
+    (r.corr[iIngress]? = some .absent → (corrNum r.corr iEgress = 2 ∨ corrNum r.corr iEgress = 3) → (create r).ready = true) := by
+  constructor
+  · intro h h3
+    apply ready_at_once
+    have := ((needs_correlation_absent_action r.corr).1 h)
+    rw [hft]
+    cases hc : corrRequired 2 r.corr
+    · rfl
+    · exact absurd h3 (this.mp hc)
+  · intro h h23
+    apply ready_at_once
+    have := ((needs_correlation_absent_action r.corr).2.1 h)
+    rw [hft]
+    cases hc : corrRequired 2 r.corr
+    · rfl
+    · have := this.mp hc; omega
+
+/-- ... whereas one that lacks the egress action and was NOT rejected at ingress (allowed, dropped,
+    or no decision) starts withheld -/
+theorem absent_egress_withheld (r : InRec) (hft : r.flowType = 2) (h : r.corr[iEgress]? = some .absent)
+    (h3 : corrNum r.corr iIngress ≠ 3) : (create r).ready = false :=
+  (withheld_at_first r (by rw [hft]; exact ((needs_correlation_absent_action r.corr).1 h).mpr h3)).1
+
+/-- isRecordFromSrc / isRecordFromDst on records that lack a pod name: without sourcePodName a record
+    is not from the source node, without destinationPodName not from the destination node; an
+    absent pod name on the other side counts as an empty one -/
+theorem absent_pod_name (c : List CorrV) :
+    (c[iSrcPod]? = some .absent → fromSrc c = false ∧ fromDst c = !(corrStr c iDstPod).isEmpty) ∧
+    (c[iDstPod]? = some .absent → fromDst c = false ∧ fromSrc c = !(corrStr c iSrcPod).isEmpty) := by
+  constructor
+  · intro h
+    have e : corrStr c iSrcPod = [] := by simp [corrStr, h]
+    simp [fromSrc, fromDst, e]
+  · intro h
+    have e : corrStr c iDstPod = [] := by simp [corrStr, h]
+    simp [fromSrc, fromDst, e]
+
+/-- the record created for a new flow carries exactly the correlate fields of its first record:
+    absent positions stay absent -/
+theorem create_keeps_corr (r : InRec) : (create r).corr = r.corr := rfl
 
 /-- the correlating update marks the record filled and ready -/
 theorem correlating_update_fills (r : InRec) (a : AggRec) (hc : corrRequired r.flowType r.corr = true)
@@ -154,9 +315,34 @@ theorem correlating_update_fills (r : InRec) (a : AggRec) (hc : corrRequired r.f
 /-! ## Non-vacuity -/
 def cS : List CorrV := [.str [1], .str [], .str [], .str [], .str [], .str [], .ip4 [0,0,0,0], .num 0, .num 0, .num 0, .num 0, .ip6 zero16]
 def cD : List CorrV := [.str [], .str [], .str [], .str [2], .str [], .str [], .ip4 [10,0,0,1], .num 443, .num 0, .num 0, .num 0, .ip6 zero16]
+/-- a source-node record of an inter-node flow -/
+def rS : InRec := { key := 1, flowType := 2, corr := cS, start := 100, end_ := 101, endReason := 2,
+                    tcpState := [], stats := [1, 1, 1, 1, 1, 1, 1, 1] }
 example : Proper cS ∧ Proper cD ∧ corrRequired 2 cS = true ∧ fromSrc cS ≠ fromSrc cD := by
   refine ⟨?_, ?_, ?_, ?_⟩ <;> (try unfold Proper) <;> decide
 example : correlate cD cS = [.str [1], .str [], .str [], .str [2], .str [], .str [], .ip4 [10,0,0,1], .num 443, .num 0, .num 0, .num 0, .ip6 zero16] := by decide
+
+/-- a source-node record whose template has no egressNetworkPolicyRuleAction (and no namespace, no
+    IPv6 cluster address): rejected at ingress / not -/
+def cSnoEgress (ingress : Nat) : List CorrV :=
+  [.str [1], .absent, .str [7], .str [], .str [], .str [], .ip4 [0,0,0,0], .num 0, .num ingress, .absent, .num 0, .absent]
+/-- a destination-node record whose template has no source node name and no service port, but the egress action -/
+def cDnoNode : List CorrV :=
+  [.str [], .str [], .absent, .str [2], .str [9], .str [], .ip4 [10,0,0,1], .absent, .num 0, .num 1, .num 5, .ip6 zero16]
+example : (cSnoEgress 3)[iEgress]? = some .absent ∧ corrRequired 2 (cSnoEgress 3) = false ∧
+    (create { rS with corr := cSnoEgress 3 }).ready = true ∧ (create { rS with corr := cSnoEgress 3 }).corr = cSnoEgress 3 := by decide
+example : corrRequired 2 (cSnoEgress 2) = true ∧ corrRequired 2 (cSnoEgress 1) = true ∧ corrRequired 2 (cSnoEgress 0) = true ∧
+    (create { rS with corr := cSnoEgress 0 }).ready = false := by decide
+/-- the two merge: fields only one side carries are taken from it (empty or not), absent on both stays absent -/
+example : Proper (cSnoEgress 0) ∧ Proper cDnoNode ∧ sameNode cDnoNode (cSnoEgress 0) = false ∧
+    correlate cDnoNode (cSnoEgress 0) =
+      [.str [1], .str [], .str [7], .str [2], .str [9], .str [], .ip4 [10,0,0,1], .num 0, .num 0, .num 1, .num 5, .ip6 zero16] ∧
+    correlate (cSnoEgress 0) cDnoNode =
+      [.str [1], .str [], .str [7], .str [2], .str [9], .str [], .ip4 [10,0,0,1], .num 0, .num 0, .num 1, .num 5, .ip6 zero16] ∧
+    correlate (cSnoEgress 0) (cSnoEgress 3) = cSnoEgress 3 := by
+  refine ⟨?_, ?_, ?_, ?_, ?_, ?_⟩ <;> (try unfold Proper) <;> decide
+/-- a record without sourcePodName is not from the source node, whatever else it carries -/
+example : fromSrc [.absent, .str [], .str [7], .str [], .str [], .str [], .ip4 [0,0,0,0], .num 0, .num 0, .num 0, .num 0, .ip6 zero16] = false := by decide
 
 /-! ## Retry bound and drop: "a flow still uncorrelated when its deadline passes is retried a bounded
     number of times and then dropped, never exported half-filled"
@@ -431,8 +617,6 @@ theorem reachable_uncorrelated_flow_dropped (aT iT : Nat) (ops : List Op) (k : N
   exact h1
 
 /-! ### Non-vacuity: a source-node record of an inter-node flow that is never correlated -/
-def rS : InRec := { key := 1, flowType := 2, corr := cS, start := 100, end_ := 101, endReason := 2,
-                    tcpState := [], stats := [1, 1, 1, 1, 1, 1, 1, 1] }
 /-- advance to the (re-armed) active deadline, scan with a callback that never fails -/
 def retryRound : Round := { recs := [], d := 100, fail := [], resetAfter := false }
 
